@@ -33,7 +33,9 @@ def ws2dgu(y, lmda, nodata, out):
         n = np.sum(w)
 
         if n > 1:
-            z = ws2d(y, lmda, w)
+            # zero-weight cells must not enter the solve (0 * nan is nan)
+            yv = np.where(w > 0, y, 0.0)
+            z = ws2d(yv, lmda, w)
             np.round(z, 0, out)
         else:
             out[:] = y[:]
